@@ -475,7 +475,7 @@ def _minimise(f):
 
 
 def run(ctx):
-    n = ctx.pick(5, 120)
+    n = ctx.pick(16, 160)
     ctx.pmap(shard, [(ctx.shard_seed(i), n, ctx.quick) for i in range(16)])
 
 
